@@ -34,6 +34,7 @@ def gen(rng):
     if op == 'sort' and axis is None: axis = -1
     if isinstance(axis, int) and not isinstance(axis, bool) and axis >= 0 and rng.random() < 0.3: axis = axis - len(shape)      # (a negative axis names the same axis)
     c = {'f': [s, nw, nf], 'shape': list(shape), 'codes': codes, 'op': op, 'axis': axis, 'route': rng.choice(['numpy', 'method'])}
+    if op == 'sort' and len(shape) == 2 and rng.random() < 0.5: c['view_sort'] = rng.randint(0, 7)
     if op in ('dot', 'matmul'):
         nw2 = rng.randint(2, 12); s2 = rng.random() < 0.6; nf2 = rng.randint(0, nw2); lo2, hi2 = S.fmt_bounds(s2, nw2)
         if len(shape) == 1: shape2 = shape
@@ -99,6 +100,13 @@ def run_cases(cases, res):
                 z = x.max(axis=axis) if meth else np.max(x, axis=axis); exact = np.max(arr, axis=axis) * lsb; want_fmt = (s, nw, nf)
             elif op == 'min':
                 z = x.min(axis=axis) if meth else np.min(x, axis=axis); exact = np.min(arr, axis=axis) * lsb; want_fmt = (s, nw, nf)
+            elif op == 'sort' and meth and len(shape) == 2 and c.get('view_sort') is not None:
+                # the in-place method on a VIEW (the NumPy idiom x[i].sort() / x[:, j].sort()): the parent array shows the sorted row / column
+                k_ = c['view_sort'] % shape[0]
+                z = x.deepcopy(); z[k_].sort()           # (in place: on a copy, the operand itself stays as it is for the checks below)
+                ref = arr.astype(np.int64).copy(); ref[k_] = np.sort(ref[k_]); exact = ref.astype(object) * lsb; want_fmt = (s, nw, nf)
+            elif op == 'sort' and meth:
+                z = x.deepcopy(); z.sort(axis=axis); exact = np.sort(arr.astype(np.int64), axis=axis).astype(object) * lsb; want_fmt = (s, nw, nf)
             elif op == 'sort':
                 z = np.sort(x, axis=axis); exact = np.sort(arr.astype(np.int64), axis=axis).astype(object) * lsb; want_fmt = (s, nw, nf)
             elif op == 'clip':
